@@ -73,7 +73,14 @@ def run(ctx):
             ctx.spec_failures.append({"stream": "lookup", "input": inp, "impl": a[:200], "model": m, "spec": "lookup never panics"}); continue
         if kind == "notfound":
             if found:
-                ctx.model_disagreements.append({"stream": "lookup", "input": inp, "impl": a[:120], "model": m})
+                # resolved although the table's own prefix rules (regenerated from the source's l@ / s@ / lp@ / sp@ annotations) say it does not: if what came back
+                # is a prefixed unit `<prefix>-<unit>` with <prefix> + <unit> = the identifier, a name that must not take that prefix took it
+                fc = first_component(a)
+                pres = [p_ for p_ in long_prefixes + short_prefixes if i.startswith(p_) and fc is not None and fc.startswith(p_ + "-")]
+                if pres:
+                    ctx.spec_failures.append({"stream": "lookup", "input": inp, "impl": a[:120], "model": m, "spec": f"names that must not take a prefix do not: `{i}` resolved as prefix `{pres[0]}` + unit, which the table's prefix rules forbid"})
+                else:
+                    ctx.model_disagreements.append({"stream": "lookup", "input": inp, "impl": a[:120], "model": m})
         else:
             if unknown:
                 # the model says this name resolves; for table names (no prefix) that is also what the property demands
